@@ -434,28 +434,30 @@ def _case(seed: int) -> Dict[str, Any]:
             ta = rt.lib(fails, "load", inp, rt.load_analysis, d)
             for rk in per_rank:
                 n += rt.lib(fails, "series", inp, _check_rank, ta, rk, per_rank, inp, fails)
-            # counters in the augmented file
-            rk = 0
-            ql = ta.get_queue_length_time_series(ranks=[rk]).get(rk)
-            bw = ta.get_memory_bw_time_series(ranks=[rk]).get(rk)
-            rt.lib(fails, "generate_trace_with_counters", inp, ta.generate_trace_with_counters, ranks=[rk])
-            src = ta.t.trace_files[rk]
-            outp = src.replace(".json", "_with_counters.json")
-            if ql is not None or bw is not None:
-                if not os.path.exists(outp):
-                    fails.append({"what": "counters.file_written", "input": inp, "observed": os.listdir(d), "expected": os.path.basename(outp)})
-                else:
-                    doc = json.load(gzip.open(outp, "rt") if outp.endswith(".gz") else open(outp))
-                    cev = [e for e in doc["traceEvents"] if e.get("ph") == "C"]
-                    exp = []
-                    if ql is not None:
-                        exp += [("Queue Length", int(a) + ta.t.min_ts, int(p), float(v)) for a, p, v in zip(ql["ts"], ql["pid"], ql["queue_length"])]
-                    if bw is not None:
-                        exp += [(str(nm), int(a) + ta.t.min_ts, int(p), float(v)) for a, p, nm, v in zip(bw["ts"], bw["pid"], bw["name"], bw["memory_bw_gbps"])]
-                    got = [(e["name"], int(e["ts"]), int(e["pid"]), float(list(e["args"].values())[0])) for e in cev]
-                    n += 1
-                    if sorted(got) != sorted(exp):
-                        fails.append({"what": "counters.reproduce_series_at_original_timestamps", "input": inp, "observed": sorted(got)[:6], "expected": sorted(exp)[:6]})
+            # counters in the augmented files: every rank of the trace requested in ONE call (each file carries its own rank's series only)
+            req = sorted(per_rank) if seed % 4 != 3 else [0]
+            series = {rk: (ta.get_queue_length_time_series(ranks=[rk]).get(rk), ta.get_memory_bw_time_series(ranks=[rk]).get(rk)) for rk in req}
+            rt.lib(fails, "generate_trace_with_counters", {**inp, "ranks_requested": req}, ta.generate_trace_with_counters, ranks=req)
+            for rk in req:
+                ql, bw = series[rk]
+                src = ta.t.trace_files[rk]
+                outp = src.replace(".json", "_with_counters.json")
+                if ql is not None or bw is not None:
+                    if not os.path.exists(outp):
+                        fails.append({"what": "counters.file_written", "input": {**inp, "ranks_requested": req, "rank": rk}, "observed": os.listdir(d), "expected": os.path.basename(outp)})
+                    else:
+                        doc = json.load(gzip.open(outp, "rt") if outp.endswith(".gz") else open(outp))
+                        cev = [e for e in doc["traceEvents"] if e.get("ph") == "C"]
+                        exp = []
+                        if ql is not None:
+                            exp += [("Queue Length", int(a) + ta.t.min_ts, int(p), float(v)) for a, p, v in zip(ql["ts"], ql["pid"], ql["queue_length"])]
+                        if bw is not None:
+                            exp += [(str(nm), int(a) + ta.t.min_ts, int(p), float(v)) for a, p, nm, v in zip(bw["ts"], bw["pid"], bw["name"], bw["memory_bw_gbps"])]
+                        got = [(e["name"], int(e["ts"]), int(e["pid"]), float(list(e["args"].values())[0])) for e in cev]
+                        n += 1
+                        if sorted(got) != sorted(exp):
+                            fails.append({"what": "counters.reproduce_series_at_original_timestamps", "input": {**inp, "ranks_requested": req, "rank": rk},
+                                          "observed": {"events": len(got), "first": sorted(got)[:6]}, "expected": {"events": len(exp), "first": sorted(exp)[:6]}})
         except rt.LibFailure:
             pass
     return {"n_checks": max(n, 1), "fails": fails, "nontrivial": n > 0, "sample": {"seed": seed, "ranks": nr}}
